@@ -343,6 +343,9 @@ pub struct Sim {
     pub obs: Option<Box<dyn FnMut() -> Obj>>,
     pub n_events: usize,
     pub settle_rounds: usize,
+    /// keep finished futures alive until the environment reaps them (futures held by select!/join!)
+    pub hold_finished: bool,
+    pub zombies: BTreeMap<usize, CallFut>,
 }
 
 fn panic_msg(e: Box<dyn std::any::Any + Send>) -> String {
@@ -365,6 +368,8 @@ impl Sim {
             obs: None,
             n_events: 0,
             settle_rounds: 8,
+            hold_finished: false,
+            zombies: BTreeMap::new(),
         }
     }
     pub fn now_ms(&self) -> u64 {
@@ -374,6 +379,8 @@ impl Sim {
     pub fn reset(&mut self, comp: &str, cfg: &Value, seed: u64, run: usize) {
         self.obs = None;
         self.callers.clear();
+        self.zombies.clear();
+        self.hold_finished = false;
         self.w = Arc::new(Mutex::new(World::new()));
         self.t0 = tokio::time::Instant::now();
         self.w.lock().unwrap().clock0 = self.t0;
@@ -513,7 +520,13 @@ impl Sim {
             // an executor drops a finished (or panicked) task's future
             if let Some(cl) = self.callers.get_mut(&c) {
                 let f = cl.fut.take();
-                let _ = catch_unwind(AssertUnwindSafe(move || drop(f)));
+                if self.hold_finished && !matches!(res, PollRes::Panic(_)) {
+                    if let Some(f) = f {
+                        self.zombies.insert(c, f);
+                    }
+                } else {
+                    let _ = catch_unwind(AssertUnwindSafe(move || drop(f)));
+                }
             }
             self.callers.remove(&c);
         }
@@ -560,6 +573,20 @@ impl Sim {
         let f = cl.fut.take();
         let r = catch_unwind(AssertUnwindSafe(move || drop(f)));
         let mut m = Sim::ev("drop");
+        m.insert("c".into(), json!(c));
+        if r.is_err() {
+            m.insert("res".into(), json!("panic"));
+        }
+        self.state_changed();
+        self.settle().await;
+        self.emit(m);
+        true
+    }
+    /// drop a future that finished earlier (only with hold_finished)
+    pub async fn reap(&mut self, c: usize) -> bool {
+        let Some(f) = self.zombies.remove(&c) else { return false };
+        let r = catch_unwind(AssertUnwindSafe(move || drop(f)));
+        let mut m = Sim::ev("reap");
         m.insert("c".into(), json!(c));
         if r.is_err() {
             m.insert("res".into(), json!("panic"));
@@ -624,4 +651,31 @@ impl Sim {
     pub fn take_lines(&mut self) -> Vec<String> {
         std::mem::take(&mut self.lines)
     }
+}
+
+/// Wraps a middleware future so that it stays alive (is not dropped) after it has resolved,
+/// until the wrapper itself is dropped -- as a future held by `select!` / `join!` / `&mut fut` would.
+pub struct KeepAlive<F: Future, M> {
+    fut: Option<Pin<Box<F>>>,
+    map: Option<M>,
+    done: bool,
+}
+impl<F: Future, M: FnOnce(F::Output) -> Out + Unpin> Future for KeepAlive<F, M> {
+    type Output = Out;
+    fn poll(mut self: Pin<&mut Self>, cx: &mut Context<'_>) -> Poll<Out> {
+        let this = &mut *self;
+        if this.done {
+            panic!("KeepAlive polled after completion");
+        }
+        match this.fut.as_mut().unwrap().as_mut().poll(cx) {
+            Poll::Pending => Poll::Pending,
+            Poll::Ready(o) => {
+                this.done = true;
+                Poll::Ready((this.map.take().unwrap())(o))
+            }
+        }
+    }
+}
+pub fn keep_alive<F: Future + 'static, M: FnOnce(F::Output) -> Out + Unpin + 'static>(f: F, map: M) -> CallFut {
+    Box::pin(KeepAlive { fut: Some(Box::pin(f)), map: Some(map), done: false })
 }
